@@ -433,3 +433,44 @@ specialise(
     bounds="n in 1..3; two real IANA codes and one invalid code",
     weight=40,
 )
+
+
+# ---- d': unlabeled choices are reported with their row numbers ------------------------------------------
+@ob(
+    "C20",
+    "d.choice-labels",
+    timeout=400,
+    kernel=("pyxform.validators.pyxform.choices:validate_choice_list", "pyxform.validators.pyxform.choices:validate_and_clean_choices", "pyxform.xls2json:workbook_to_json"),
+    shims=("S1", "S2", "S3", "S4"),
+    symbolic="label present or not on each of 3 choice rows (3 symbolic booleans), the third row re-using the first row's name under allow_choice_duplicates (boolean), a second list placed before (boolean, shifts the row numbers), a label tracer character",
+    bounds="one select over a list of 3 choices: exactly one 'should have a label' warning per unlabeled choice, citing its sheet row; no warning for labelled ones; the XForm is the same with or without the warnings' subject",
+    weight=60,
+)
+def c20_choice_labels(l1: bool, l2: bool, l3: bool, dup: bool, shift: bool, c0: int) -> bool:
+    """
+    pre: 97 <= c0 <= 122
+    post: _ == True
+    """
+    lab = S(c0, 65)
+    ch = []
+    if shift:
+        ch.append({"list_name": "l0", "name": "z", "label": "Z"})
+    first = len(ch)
+    for i, (has, nm) in enumerate(((l1, "a"), (l2, "b"), (l3, "a" if dup else "c"))):
+        r = {"list_name": "l1", "name": nm}
+        if has:
+            r["label"] = lab
+        ch.append(r)
+    wb = {"survey": [{"type": "select_one l1", "name": "q1", "label": "Q"}], "choices": ch, "choices_header": [{"list_name": None, "name": None, "label": None}]}
+    if dup:
+        wb["settings"] = [{"allow_choice_duplicates": "yes"}]
+    survey, warnings, _js = build_survey(wb)
+    survey.xml()
+    hits = [w for w in warnings if "should have a label" in w]
+    want_rows = [first + i + 2 for i, has in enumerate((l1, l2, l3)) if not has]
+    if len(hits) != len(want_rows):
+        return False
+    for rn in want_rows:
+        if len([w for w in hits if ("[row : " + str(rn) + "]") in w]) != 1:
+            return False
+    return True
